@@ -25,14 +25,14 @@ ASSUMPTIONS = [
 ]
 DECIDING = ["MOD.__init__", "MOD.subdistribution", "mmd-laws", "nll-entropy-bound", "js-symmetric", "save-load"]
 EXHAUSTIVE = {"marginal_exh": "all ordered lists of distinct qubits of an n-subsystem distribution, n<=3 quick / n<=4 thorough"}
-BUDGET = {"quick": (4, 15, 500), "thorough": (16, 120, 100000)}
+BUDGET = {"quick": (4, 15, 3000), "thorough": (16, 120, 100000)}
 
 _TMP = None
 
 
 def classes(tier):
     return ["construct", "construct_invalid", "marginal_exh", "marginal_rand",
-            "marginal_invalid", "distances", "saveload", "wide"]
+            "marginal_invalid", "distances", "saveload", "wide", "history"]
 
 
 # ----------------------------------------------------------------------------- oracle helpers
@@ -533,6 +533,60 @@ def run_case(ctx):
             ia, ib = dict(_items(a)), dict(_items(back))
             ctx.check("save-load", set(ia) == set(ib) and all(abs(ia[k_] - ib[k_]) <= 1e-12 for k_ in ia),
                       lambda: f"saved {ia!r} loaded {ib!r}")
+        return
+    if cls == "history":
+        # several queries in one process that agree in everything a too-coarse memo key could look at (same keys /
+        # same number of keys / same qubit list / same object / same parameters) and differ in what matters
+        n = rng.randint(2, 5)
+        d1 = rand_dist_dict(rng, n=n, binary=True, keystyle="tuple", kmin=3)
+        keys = list(d1)
+        d2 = dict(zip(keys, rand_weights(rng, len(keys))))  # same keys, other probabilities
+        d3 = dict(zip(reversed(keys), d1.values()))  # same values, permuted over the keys
+        sub = rng.sample(range(n), rng.randint(1, n))
+        sub2 = list(reversed(sub)) if len(sub) > 1 else [(sub[0] + 1) % n]
+        mode = rng.choice(["marginal", "distances", "saveload", "short-lived"])
+        ctx.describe(f"history {mode} n={n} sub={sub} {d1!r} {d2!r}", True)
+        ctx.mon.note(f"history:{mode}")
+        a, b, c = MOD(dict(d1)), MOD(dict(d2)), MOD(dict(d3))
+        if mode == "marginal":
+            for dist, q in ((a, sub), (b, sub), (a, sub2), (c, sub), (a, sub), (b, sub2)):
+                dist.subdistribution(list(q))
+        elif mode == "distances":
+            sig, sig2 = rng.choice([1.0, 0.3, [0.5, 2.0]]), rng.choice([2.5, [1.0, 4.0]])
+            eps = rng.choice([1e-9, 1e-3])
+            pe = {"epsilon": eps}
+            for x, y in ((a, b), (a, c), (b, c), (a, b)):
+                for p_ in ({"sigma": sig}, {"sigma": sig2}, {"sigma": sig}):
+                    m_xy, m_yx, m_xx = compute_mmd(x, y, p_), compute_mmd(y, x, p_), compute_mmd(x, x, p_)
+                    ctx.check("mmd-laws", abs(m_xy - m_yx) <= 1e-12 and m_xy >= -1e-12 and abs(m_xx) <= 1e-15,
+                              lambda: f"mmd xy={m_xy!r} yx={m_yx!r} xx={m_xx!r} sigma={p_}")
+                # exact NLL value against a dictionary fold, with the same parameter dict reused
+                dy = dict(_items(y))
+                exp = -sum(v * math.log(max(eps, dy.get(k_, 0))) for k_, v in _items(x))
+                got = nll(x, y, pe)
+                ctx.check("nll-value", abs(got - exp) <= 1e-9 * max(1, abs(exp)), lambda: f"nll {got!r} vs fold {exp!r}")
+                j_xy, j_yx = jsd(x, y, pe), jsd(y, x, pe)
+                ctx.check("js-symmetric", abs(j_xy - j_yx) <= 1e-12 * max(1, abs(j_xy)), lambda: f"jsd xy={j_xy!r} yx={j_yx!r}")
+        elif mode == "saveload":
+            if _TMP is None:
+                _TMP = tempfile.mkdtemp(prefix="rv-c17-")
+            path = os.path.join(_TMP, f"h{ctx.index}.json")  # the same path written again and again
+            try:
+                for dist in (a, b, a, c):
+                    save_measurement_outcome_distribution(dist, path)
+                    back = load_measurement_outcome_distribution(path)
+                    ia, ib = dict(_items(dist)), dict(_items(back))
+                    ctx.check("save-load", set(ia) == set(ib) and all(abs(ia[k_] - ib[k_]) <= 1e-12 for k_ in ia),
+                              lambda: f"saved {ia!r} loaded {ib!r}")
+            finally:
+                if os.path.exists(path):
+                    os.remove(path)
+        else:
+            for k_ in range(6):  # objects that die immediately: address-keyed memos meet recycled ids
+                dist = MOD(dict(zip(keys, rand_weights(rng, len(keys)))))
+                dist.subdistribution(list(sub))
+                compute_mmd(dist, a, {"sigma": 1.0})
+                del dist
         return
     if cls == "saveload":
         if _TMP is None:
